@@ -244,7 +244,16 @@ func (w *World) genKind(t *rapid.T, kind string, p *Profile) Op {
 	case OpAddAsk:
 		op = w.genAddAsk(t, p)
 	case OpUpdAsk:
-		keys := append(s.KeysIn(KOutstanding), s.KeysIn(KBound)...)
+		// not for a key whose release the core has announced: the shim is about to confirm that, it does not resize it
+		var keys []string
+		for _, key := range append(s.KeysIn(KOutstanding), s.KeysIn(KBound)...) {
+			if s.Keys[key].Announced == "" {
+				keys = append(keys, key)
+			}
+		}
+		if len(keys) == 0 {
+			return Op{Kind: OpSchedule}
+		}
 		k := s.Keys[pick(t, "key", keys)]
 		op = k.Spec
 		op.Kind = OpUpdAsk
